@@ -131,6 +131,11 @@ type c02Worker struct {
 	// than the full alphabet) and run on the edge-property fixture only
 	edgeStart   int
 	edgeTargets []c02Target
+	// third party: the reference interpreter on the fresh stores. The literal plan shares the step
+	// processors with the production plan, so a processor that itself ignores the planner's decision
+	// (both plans wrong in the same way) is only visible against the documented semantics.
+	ref    *c01Worker
+	refIdx map[string]int // target name -> index into ref.fixtures / ref.gis
 	spell       [][][]refsem.Step // groups of programs that must return identical rows
 }
 
@@ -234,9 +239,18 @@ func newC02Worker(tier string) *c02Worker {
 		level = next
 	}
 	fx := progenum.Fixtures()
+	w.ref = &c01Worker{}
+	w.refIdx = map[string]int{}
+	addRef := func(name string, f progenum.Fixture, gi gdbi.GraphInterface) {
+		w.refIdx[name] = len(w.ref.fixtures)
+		w.ref.fixtures = append(w.ref.fixtures, f)
+		w.ref.gis = append(w.ref.gis, gi)
+	}
 	for _, i := range []int{2, 4, 5} {
 		_, gi := fx[i].LoadMem()
 		w.targets = append(w.targets, c02Target{"kvgraph/" + fx[i].Name, gi}, c02Target{"noload/" + fx[i].Name, noLoad{gi}})
+		addRef("kvgraph/"+fx[i].Name, fx[i], gi)
+		addRef("noload/"+fx[i].Name, fx[i], noLoad{gi})
 	}
 	// stale-index store: F2 with vertex a relabelled P->Q and vertex c deleted
 	{
@@ -248,6 +262,8 @@ func newC02Worker(tier string) *c02Worker {
 	{
 		_, gi := fx[6].LoadMem()
 		w.edgeTargets = []c02Target{{"kvgraph/" + fx[6].Name, gi}, {"noload/" + fx[6].Name, noLoad{gi}}}
+		addRef("kvgraph/"+fx[6].Name, fx[6], gi)
+		addRef("noload/"+fx[6].Name, fx[6], noLoad{gi})
 		w.edgeStart = len(w.progs)
 		seen := map[string]bool{}
 		for _, p := range w.progs {
@@ -431,6 +447,28 @@ func (w *c02Worker) Item(idx int, emit func(vf.Violation), st sweep.Stats, sampl
 					Replay: map[string]any{"program": refsem.ProgName(p), "target": tg.name, "index": idx}})
 			} else {
 				st["non_minimal_disagreements"]++
+			}
+		}
+		// the documented semantics on the fresh stores (well-typed programs the documentation defines)
+		if fi, ok := w.refIdx[tg.name]; ok && d == "" {
+			if ty, _, _ := refsem.TypeOf(p); ty == refsem.WellTyped {
+				if dir, det := w.ref.compare(p, fi, st); dir != "" {
+					minimal := true
+					for k := 1; k < len(p); k++ {
+						if ty, _, _ := refsem.TypeOf(p[:k]); ty != refsem.WellTyped {
+							continue
+						}
+						if dd, _ := w.ref.compare(p[:k], fi, sweep.Stats{}); dd != "" {
+							minimal = false
+							break
+						}
+					}
+					if minimal {
+						emit(vf.Violation{Sig: fmt.Sprintf("semantics|%s|%s|%s", storeClass(tg.name), opSeq(p), dir),
+							Detail: fmt.Sprintf("%s on %s: production and literal plan agree with each other but not with the documented semantics: %s", refsem.ProgName(p), tg.name, det),
+							Replay: map[string]any{"program": refsem.ProgName(p), "target": tg.name, "index": idx}})
+					}
+				}
 			}
 		}
 		// count(P) == |rows(P)|
